@@ -198,7 +198,12 @@ class SimpleDictDocument(DictDocument):
 
         logger.debug("Simple type info key: %r", simple_type_info.keys())
 
-        idxmap = defaultdict(dict)
+        # sparse-to-contiguous index maps of the lists under construction, keyed
+        # by id(list). The list is stored next to its map: a list that gets
+        # replaced while the document is processed (e.g. its parent is reset by
+        # an 'empty' marker) must stay referenced, otherwise its id can be
+        # reused by a new list which would then inherit a stale map.
+        idxmap = {}
         for orig_k, v in sorted(doc.items(),
                                         key=lambda _k: _natural_key(_k[0])):
             k = RE_HTTP_ARRAY_INDEX.sub("", orig_k)
@@ -280,7 +285,7 @@ class SimpleDictDocument(DictDocument):
                         cinst = ninst[nidx]
 
                     else:
-                        _m = idxmap[id(ninst)]
+                        _m = idxmap.setdefault(id(ninst), (ninst, {}))[1]
                         cidx = _m.get(nidx, None)
                         if cidx is None:
                             cidx = _s2cmi(_m, nidx)
